@@ -64,7 +64,7 @@ Definition parse_step (eocs : bool) (cb : Z) (s : bytes) : pstep :=
       let len := entry_len e in
       if eocs && requires_tx val then PSErr
       else
-        let cb' := if (val =? OP_IF) || (val =? OP_NOTIF) || (val =? OP_VERIF) || (val =? OP_VERNOTIF) then (cb + 1)%Z
+        let cb' := if (val =? OP_IF) || (val =? OP_NOTIF) then (cb + 1)%Z
                    else if val =? OP_ENDIF then (cb - 1)%Z else cb in
         if (val =? OP_RETURN) && (cb' =? 0)%Z then
           let op := mkPop val [] len false in
